@@ -64,6 +64,17 @@ Fixpoint run_eager_ix (i : nat) (s : state) (es : list event) : state * list (N 
       let '(s3, o3, ok3) := run_eager_ix (S i) s2 r in
       (s3, stamp_ix i (stamp (now s) o1 ++ o2) ++ o3, ok2 && ok3)
   end.
+(* the same schedule with RTU framing: environment events go through rtu_step (the task's own
+   recv / timer steps are untouched by the framing) *)
+Fixpoint run_eager_ix_rtu (i : nat) (s : state) (es : list event) : state * list (N * nat * output) * bool :=
+  match es with
+  | [] => (s, [], true)
+  | e :: r =>
+      let '(s1, o1) := rtu_step cfg s e in
+      let '(s2, o2, ok2) := saturate cfg (fuel_for s1) s1 in
+      let '(s3, o3, ok3) := run_eager_ix_rtu (S i) s2 r in
+      (s3, stamp_ix i (stamp (now s) o1 ++ o2) ++ o3, ok2 && ok3)
+  end.
 End Ix.
 
 (* ---------- rendering ---------- *)
@@ -117,10 +128,10 @@ Definition show_run (r : state * list (N * nat * output) * bool) : string :=
 (* one correspondence case: configuration and script *)
 Record case := {
   k_cap : nat; k_handles : nat; k_max_timeouts : option N; k_rmin : N; k_rmax : N; k_res : N;
-  k_script : list event }.
+  k_rtu : bool; k_script : list event }.
 
 Definition eval_case (k : case) : string :=
   let cfg := {| cfg_cap := k_cap k; cfg_res := k_res k |} in
   let s0 := init (k_handles k) (k_max_timeouts k) (k_rmin k) (k_rmax k) in
-  let '(s, o, ok) := run_eager_ix cfg 0 s0 (k_script k) in
+  let '(s, o, ok) := (if k_rtu k then run_eager_ix_rtu cfg 0 s0 (k_script k) else run_eager_ix cfg 0 s0 (k_script k)) in
   show_run (s, (stamp_ix 0 (stamp 0 init_outputs) ++ o)%list, ok).
